@@ -114,6 +114,22 @@ theorem wf_pathOnly (p : Text) (hpt : PathText p) (hf : fsc p = false) (hss : st
     noSS := fun _ => hss
     noColon := fun _ _ => hf }
 
+/-- a relative reference: a path, optionally a query and a fragment -/
+def pathQF (p : Text) (q f : Option Text) : Spec.Parts :=
+  { scheme := none, authority := none, path := p, query := q, fragment := f }
+
+theorem wf_pathQF (p : Text) (q f : Option Text) (hpt : PathText p) (hf : fsc p = false) (hss : startsSS p = false)
+    (hq : ∀ x, q = some x → ∀ c ∈ x, nH c = true) : WF (pathQF p q f) :=
+  { scheme := fun s h => by simp [pathQF] at h
+    authority := fun a h => by simp [pathQF] at h
+    path := fun c hc => by
+      have := hpt c hc
+      simp [nQH, this.1, this.2]
+    query := hq
+    abempty := fun h => by simp [pathQF] at h
+    noSS := fun _ => hss
+    noColon := fun _ _ => hf }
+
 theorem joinSlash_snoc (L : List Text) (hne : L ≠ []) (s : Text) :
     joinSlash (L ++ [s]) = joinSlash L ++ cSlash :: s := by
   induction L with
@@ -284,10 +300,15 @@ theorem relative_to_explicit (oka : Grammar.OkAuth G) (we : Grammar.OkWE G) (a b
     (hsch : (split a).scheme = (split b).scheme)
     (haa : (split a).authority = some aa) (hab : (split b).authority = some ab) (hauth : authKey aa = authKey ab)
     (hpa : isAbs (split a).path = true) (hpb : isAbs (split b).path = true)
-    (hq : (split a).query = none) (hf : (split a).fragment = none) :
-    Ref.relative_to a b = some (renderRel
+    (hnsp : (((split a).query.isSome || (split a).fragment.isSome) &&
+      some (renderRel
+        (((Ref.dropCommon (nsegs (split a).path) (nsegs (Path.parent_or_empty (split b).path))).2.map fun _ => segDotDot) ++
+          (Ref.dropCommon (nsegs (split a).path) (nsegs (Path.parent_or_empty (split b).path))).1))
+        == Path.last (split b).path) = false) :
+    Ref.relative_to a b = some (recompose (pathQF (renderRel
       (((Ref.dropCommon (nsegs (split a).path) (nsegs (Path.parent_or_empty (split b).path))).2.map fun _ => segDotDot) ++
-        (Ref.dropCommon (nsegs (split a).path) (nsegs (Path.parent_or_empty (split b).path))).1)) := by
+        (Ref.dropCommon (nsegs (split a).path) (nsegs (Path.parent_or_empty (split b).path))).1))
+      (split a).query (split a).fragment)) := by
   obtain ⟨vA, wA⟩ := split_valid G ok a ha
   obtain ⟨vO, wO⟩ := split_valid G ok b hb
   have hsa := ref_scheme_opt_recompose (split a) wA
@@ -299,9 +320,10 @@ theorem relative_to_explicit (oka : Grammar.OkAuth G) (we : Grammar.OkWE G) (a b
   have hqa := ref_query_recompose (split a) wA
   have hfa := ref_fragment_recompose (split a) wA
   rw [Lemmas.recompose_split] at hsa hso hau hbu hpA hpO hqa hfa
-  have hbody : Ref.relative_body a b = some (renderRel
+  have hbody : Ref.relative_body a b = some (recompose (pathQF (renderRel
       (((Ref.dropCommon (nsegs (split a).path) (nsegs (Path.parent_or_empty (split b).path))).2.map fun _ => segDotDot) ++
-        (Ref.dropCommon (nsegs (split a).path) (nsegs (Path.parent_or_empty (split b).path))).1)) := by
+        (Ref.dropCommon (nsegs (split a).path) (nsegs (Path.parent_or_empty (split b).path))).1))
+      (split a).query (split a).fragment)) := by
     -- the path part
     have hptA : PathText (split a).path := pathText_of_wf _ wA
     have hptO : PathText (split b).path := pathText_of_wf _ wO
@@ -309,17 +331,16 @@ theorem relative_to_explicit (oka : Grammar.OkAuth G) (we : Grammar.OkWE G) (a b
     have hweO : wellEscaped (split b).path = true := path_we G we _ vO
     obtain ⟨hpw, hpp⟩ := parent_or_empty_props (split b).path
     unfold Ref.relative_body
-    simp only [hpA, hpO, hqa, hfa, hq, hf, normalized_segments_eq _ hptA, normalized_segments_eq _ (hpp hptO)]
+    simp only [hpA, hpO, hqa, hfa, normalized_segments_eq _ hptA, normalized_segments_eq _ (hpp hptO)]
     have hws : ∀ s ∈ nsegs (split a).path, wellEscaped s = true := nsegs_we _ hweA
     have hwb : ∀ s ∈ nsegs (Path.parent_or_empty (split b).path), wellEscaped s = true := nsegs_we _ (hpw hweO)
     rw [dropCommonPanics_false _ _ hws hwb]
     have habs2 : (Path.is_absolute (split a).path == Path.is_absolute (split b).path) = true := by
       rw [is_absolute_eq, is_absolute_eq, hpa, hpb]; rfl
-    simp only [habs2, Bool.and_false, Bool.false_eq_true, if_false, if_true, Option.isSome_none, Bool.or_self,
-      Bool.false_and]
-    generalize hd : Ref.dropCommon (nsegs (split a).path) (nsegs (Path.parent_or_empty (split b).path)) = d
+    simp only [habs2, Bool.and_false, Bool.false_eq_true, if_false, if_true]
+    generalize hd : Ref.dropCommon (nsegs (split a).path) (nsegs (Path.parent_or_empty (split b).path)) = d at hnsp
     obtain ⟨ss, bs⟩ := d
-    simp only []
+    simp only [] at hnsp ⊢
     -- every pushed segment is free of `/`, `?`, `#`
     have hsegA : ∀ s ∈ nsegs (split a).path, cSlash ∉ s ∧ PathText s := by
       intro s hs
@@ -345,23 +366,27 @@ theorem relative_to_explicit (oka : Grammar.OkAuth G) (we : Grammar.OkWE G) (a b
       · exact hups x h
       · exact hss x h)
     simp only [Option.bind_eq_bind, e1', Option.bind_some, e2]
-    -- no query, no fragment: the two setters leave the text alone
+    -- the special case does not fire; then the query and the fragment of `a` are set
     obtain ⟨hpt, hfc, hsS, _⟩ := renderRel_props ((bs.map fun _ => segDotDot) ++ ss) (by
       intro x hx
       rcases List.mem_append.mp hx with h | h
       · exact hups x h
       · exact hss x h)
     have wf := wf_pathOnly _ hpt hfc hsS
-    have q1 := set_query_recompose _ wf none
-    have f1 := set_fragment_recompose _ wf none
-    rw [recompose_pathOnly] at q1 f1
-    have hsame : ({ pathOnly (renderRel ((bs.map fun _ => segDotDot) ++ ss)) with query := none } : Spec.Parts)
-        = pathOnly (renderRel ((bs.map fun _ => segDotDot) ++ ss)) := rfl
-    have hsame2 : ({ pathOnly (renderRel ((bs.map fun _ => segDotDot) ++ ss)) with fragment := none } : Spec.Parts)
-        = pathOnly (renderRel ((bs.map fun _ => segDotDot) ++ ss)) := rfl
-    rw [hsame, recompose_pathOnly] at q1
-    rw [hsame2, recompose_pathOnly] at f1
+    have hp2 : Ref.path (renderRel ((bs.map fun _ => segDotDot) ++ ss)) = renderRel ((bs.map fun _ => segDotDot) ++ ss) := by
+      have := ref_path_recompose _ wf
+      rwa [recompose_pathOnly] at this
+    rw [hp2, hnsp]
+    simp only [Bool.false_eq_true, if_false, Option.bind_some]
+    have q1 := set_query_recompose _ wf (split a).query
+    rw [recompose_pathOnly] at q1
+    have wf2 := wf_pathQF (renderRel ((bs.map fun _ => segDotDot) ++ ss)) (split a).query none hpt hfc hsS wA.query
+    have f1 := set_fragment_recompose _ wf2 (split a).fragment
+    have hsame : ({ pathOnly (renderRel ((bs.map fun _ => segDotDot) ++ ss)) with query := (split a).query } : Spec.Parts)
+        = pathQF (renderRel ((bs.map fun _ => segDotDot) ++ ss)) (split a).query none := rfl
+    rw [hsame] at q1
     simp only [q1, Option.bind_some, f1]
+    rfl
 
   unfold Ref.relative_to
   simp only [hsa, hso, hau, hbu, haa, hab, hsch,
@@ -392,7 +417,11 @@ theorem relative_roundtrip (oka : Grammar.OkAuth G) (we : Grammar.OkWE G) (a b a
     (hsch : (split a).scheme = (split b).scheme)
     (haa : (split a).authority = some aa) (hab : (split b).authority = some ab) (hauth : authKey aa = authKey ab)
     (hpa : isAbs (split a).path = true) (hpb : isAbs (split b).path = true)
-    (hq : (split a).query = none) (hf : (split a).fragment = none)
+    (hnsp : (((split a).query.isSome || (split a).fragment.isSome) &&
+      some (renderRel
+        (((Ref.dropCommon (nsegs (split a).path) (nsegs (Path.parent_or_empty (split b).path))).2.map fun _ => segDotDot) ++
+          (Ref.dropCommon (nsegs (split a).path) (nsegs (Path.parent_or_empty (split b).path))).1))
+        == Path.last (split b).path) = false)
     (hrem : (Ref.dropCommon (nsegs (split a).path) (nsegs (Path.parent_or_empty (split b).path))).1 ≠ [] ∧
       [] ∉ (Ref.dropCommon (nsegs (split a).path) (nsegs (Path.parent_or_empty (split b).path))).1) :
     ∃ r t, Ref.relative_to a b = some r ∧ Ref.resolve r b = some t ∧ key t = key a := by
@@ -400,7 +429,7 @@ theorem relative_roundtrip (oka : Grammar.OkAuth G) (we : Grammar.OkWE G) (a b a
   have hbR : Matches G.reference b := Matches.altL hb
   obtain ⟨vA, wA⟩ := split_valid G ok a haR
   obtain ⟨vB, wB⟩ := split_valid G ok b hbR
-  have hrel := relative_to_explicit G ok okp oka we a b aa ab haR hbR hsch haa hab hauth hpa hpb hq hf
+  have hrel := relative_to_explicit G ok okp oka we a b aa ab haR hbR hsch haa hab hauth hpa hpb hnsp
   obtain ⟨r', er', vr'⟩ := relative_to_total G ok okp oka we a b haR hbR
   rw [hrel] at er'
   simp only [Option.some.injEq] at er'
@@ -455,11 +484,12 @@ theorem relative_roundtrip (oka : Grammar.OkAuth G) (we : Grammar.OkWE G) (a b a
       exact ⟨segs_no_slash _ s hm', fun c hc => hptA c
         (mem_of_mem_splitSlash' _ s (segs_subset_splitSlash G ok okp _ s hm') c hc)⟩
   obtain ⟨hpt, hfc, hsS, hrelp⟩ := renderRel_props L hLns
-  have wfr := wf_pathOnly _ hpt hfc hsS
-  have hsplit : split (renderRel L) = pathOnly (renderRel L) := by
-    have := Lemmas.split_recompose _ wfr
-    rwa [recompose_pathOnly] at this
-  have hvr : Matches G.reference (renderRel L) := by rw [er']; exact vr'
+  have wfr := wf_pathQF (renderRel L) (split a).query (split a).fragment hpt hfc hsS wA.query
+  obtain ⟨R, hRdef⟩ : ∃ R, R = recompose (pathQF (renderRel L) (split a).query (split a).fragment) := ⟨_, rfl⟩
+  rw [← hRdef] at hrel er'
+  have hsplit : split R = pathQF (renderRel L) (split a).query (split a).fragment := by
+    rw [hRdef]; exact Lemmas.split_recompose _ wfr
+  have hvr : Matches G.reference R := by rw [er']; exact vr'
   have hRne : renderRel L ≠ [] := by
     cases hLc : L with
     | nil => exact absurd hLc hLne
@@ -493,9 +523,9 @@ theorem relative_roundtrip (oka : Grammar.OkAuth G) (we : Grammar.OkWE G) (a b a
       · exact hLnonempty s h
   have hsk := noSkip_nonempty true (splitSlash (renderRel L)) (nsegsOf true (segs (split b).path).dropLast) hSne
   -- resolution
-  have hres := resolve_relative_authority G ok okp b (renderRel L) ab hb hvr (by rw [hsplit]; rfl) (by rw [hsplit]; rfl)
+  have hres := resolve_relative_authority G ok okp b R ab hb hvr (by rw [hsplit]; rfl) (by rw [hsplit]; rfl)
     (by rw [hsplit]; exact hRne) (by rw [hsplit]; exact hrelp) hab (by rw [hsplit]; exact hsk)
-  refine ⟨renderRel L, _, hrel, hres, ?_⟩
+  refine ⟨R, _, hrel, hres, ?_⟩
   -- the target
   have hBab : (split b).path = [] ∨ ∃ q, (split b).path = cSlash :: q := .inr ⟨q, hqb⟩
   have hrd := removeDots_merge (split b).path (renderRel L) hBab hRne hsk
@@ -516,9 +546,10 @@ theorem relative_roundtrip (oka : Grammar.OkAuth G) (we : Grammar.OkWE G) (a b a
   obtain ⟨sb, hsb⟩ : ∃ sb, (split b).scheme = some sb := by
     have := ((C02.full_iff_scheme G ok b).mp hb).2
     exact Option.isSome_iff_exists.mp this
-  have hT : resolveSpec b (renderRel L) = sap sb ab (cSlash :: joinSlash (cb ++ ss)) := by
+  have hT : resolveSpec b R = { sap sb ab (cSlash :: joinSlash (cb ++ ss)) with
+      query := (split a).query, fragment := (split a).fragment } := by
     have hpe : (renderRel L).isEmpty = false := by cases h : renderRel L <;> simp_all
-    simp only [resolveSpec, transform, hsplit, pathOnly, hpe, Bool.false_eq_true, if_false, hrelp, hab,
+    simp only [resolveSpec, transform, hsplit, pathQF, hpe, Bool.false_eq_true, if_false, hrelp, hab,
       Option.isSome_some, hrd, hsb, sap]
   have hX : ∀ s ∈ cb ++ ss, cSlash ∉ s := by
     intro s hs
@@ -549,7 +580,7 @@ theorem relative_roundtrip (oka : Grammar.OkAuth G) (we : Grammar.OkWE G) (a b a
   obtain ⟨hsg, habsT⟩ := segs_render true (cb ++ ss) hXne hX (by simpa using hXl)
   simp only [if_true, List.singleton_append] at hsg habsT
   have hptT : PathText (cSlash :: joinSlash (cb ++ ss)) := by
-    have hvt := (resolve_total G ok okp b (renderRel L) hb hvr)
+    have hvt := (resolve_total G ok okp b R hb hvr)
     obtain ⟨t, et, vt⟩ := hvt
     rw [hres] at et
     simp only [Option.some.injEq] at et
@@ -583,13 +614,16 @@ theorem relative_roundtrip (oka : Grammar.OkAuth G) (we : Grammar.OkWE G) (a b a
               · exact ih (fun z hz => hM z (List.mem_cons_of_mem _ hz)) c h3
       exact hj _ hall c h
   have hsaok : SAOk sb ab := ⟨wB.scheme sb hsb, wB.authority ab hab⟩
-  have wfT := wf_sap sb ab _ hsaok hptT (.inr ⟨_, rfl⟩)
-  have hsT : split (recompose (sap sb ab (cSlash :: joinSlash (cb ++ ss)))) = sap sb ab (cSlash :: joinSlash (cb ++ ss)) :=
-    Lemmas.split_recompose _ wfT
+  have wfT0 := wf_sap sb ab _ hsaok hptT (.inr ⟨_, rfl⟩)
+  have wfT : WF { sap sb ab (cSlash :: joinSlash (cb ++ ss)) with
+      query := (split a).query, fragment := (split a).fragment } :=
+    { scheme := wfT0.scheme, authority := wfT0.authority, path := wfT0.path, query := wA.query,
+      abempty := wfT0.abempty, noSS := wfT0.noSS, noColon := wfT0.noColon }
+  have hsT := Lemmas.split_recompose _ wfT
   rw [hT]
   unfold key
   rw [hsT]
-  simp only [sap, Option.map_some, Option.map_none, hq, hf, haa, hsch, hsb, hauth]
+  simp only [sap, Option.map_some, haa, hsch, hsb, hauth]
   congr 1
   unfold pathKey
   rw [hpa, habsT]
